@@ -11,6 +11,7 @@ import HavocVerif.Driver.C10
 import HavocVerif.Driver.C11
 import HavocVerif.Driver.C12
 import HavocVerif.Driver.C15
+import HavocVerif.Driver.C16
 /-
   Line-protocol driver.  `driver <property> < ops.txt` prints one verdict per
   input line, prefixed with the 1-based line number.  A line `reset` starts a
@@ -40,6 +41,7 @@ def stepperFor (prop : String) : Option Stepper :=
   | "C11" => some ⟨DriverC11.St, {}, DriverC11.step⟩
   | "C12" => some ⟨DriverC12.St, {}, DriverC12.step⟩
   | "C15" => some ⟨DriverC15.St, {}, DriverC15.step⟩
+  | "C16" => some ⟨DriverC16.St, {}, DriverC16.step⟩
   | _ => none
 
 partial def loop (h : IO.FS.Stream) (out : IO.FS.Stream) (S : Stepper) (st : S.σ) (n : Nat) : IO Unit := do
